@@ -174,6 +174,51 @@ class TypeFolder(Folder):
         return super().c_isinstance(a, kw)
 
 
+_OPNAME = {ast.Add: "+", ast.Sub: "-", ast.Lt: "<", ast.LtE: "<=", ast.Gt: ">", ast.GtE: ">=", ast.Eq: "=="}
+_OPERATOR = {"operator.add": "+", "operator.sub": "-", "operator.lt": "<", "operator.le": "<=", "operator.gt": ">", "operator.ge": ">=", "operator.eq": "==",
+             "np.add": "+", "np.subtract": "-", "np.less": "<", "np.less_equal": "<=", "np.greater": ">", "np.greater_equal": ">=", "np.equal": "=="}
+_FLIP = {">": "<", ">=": "<=", "<": ">", "<=": ">="}
+
+
+def _fold_operator(g, op):
+    """Symbolic fold of a binary dunder that delegates to a helper: the data of the result must be `self.img <op> other.img` (image operand)
+    and, where a scalar operand is accepted, `self.img <op> other`.  None when the method leaves the folding language."""
+    from ..fold import Folder, Obj, Sym
+
+    def canon(v):
+        if not isinstance(v, Sym) or len(v.args) != 2:
+            return None
+        o = _OPERATOR.get(v.fn, v.fn)
+        a, b = v.args
+        la, lb = getattr(a, "label", None), getattr(b, "label", None)
+        if o in _FLIP and la != "A":
+            o, la, lb = _FLIP[o], lb, la
+        elif o in ("+", "==") and la != "A":
+            la, lb = lb, la
+        return (o, la, lb)
+    verdicts = []
+    for other, lab, must in ((Obj("other", {"__class__": "Image", "img": Opaque("arr", "B")}), "B", True), (Opaque("float", "c"), "c", False)):
+        fo = Folder(symbolic=True)
+        fo.func_stack.append(g.node)
+        try:
+            r = fo.call(g.node, [Obj("self", {"__class__": "Image", "img": Opaque("arr", "A")}), other])
+        except (Refuse, Raised):
+            if must:
+                return None
+            continue
+        data = [t.args[2] for t in fo.trace if isinstance(t, Sym) and t.fn == "setattr" and t.args[1] == "img"]
+        if not data and isinstance(r, Sym) and r.args:
+            data = [r.args[0]]
+        if len(data) != 1:
+            if must:
+                return None
+            continue
+        c = canon(data[0])
+        verdicts.append((c == (_OPNAME[op], "A", lab), f"with {'an image' if must else 'a scalar'} operand the result data is {data[0]!r}"))
+    bad = [w for ok, w in verdicts if not ok]
+    return (not bad, "; ".join(bad))
+
+
 def rule_d(ctx):
     R = "C17.d"
     ctx.rule(R, "the scalar guard of multiplication accepts every documented type (guard folded over the type tags of the annotation); each "
@@ -208,6 +253,11 @@ def rule_d(ctx):
                 # canonical orientation: `self.img > y` is stored as `y < self.img`
                 flip = {ast.Lt: ast.Gt, ast.LtE: ast.GtE, ast.Gt: ast.Lt, ast.GtE: ast.LtE}
                 found.append((flip.get(type(x.ops[0]), type(x.ops[0])), norm(x.left)))
+        if not found:
+            sem = _fold_operator(g, op)
+            if sem is not None:
+                ctx.ob(R, g.qname, f"{name} applies `{op.__name__}` to self.img and the other operand's data", sem[0], sem[1], g.node, evidence=True)
+                continue
         ok = bool(found) and all(o is op for o, _ in found) and {r for _, r in found} <= {f"{other}.img", other} and f"{other}.img" in {r for _, r in found}
         ctx.ob(R, g.qname, f"{name} applies `{op.__name__}` to self.img and the other operand's data", ok, str([(o.__name__, r) for o, r in found]), g.node)
     rm = m.cls(IMG, "Image")
